@@ -377,8 +377,37 @@ func leafValue(node parquet.Node, v reflect.Value, r, d int) LV {
 		lv.Kind, lv.B = KByteArray, goBytes(v)
 	case parquet.FixedLenByteArray:
 		lv.Kind, lv.B = KFixed, goBytes(v)
+		if v.Kind() == reflect.String && lt != nil && isUUID(lt) {
+			// a string field tagged uuid holds the text form; the column stores the 16 bytes
+			lv.B = uuidBytes(v.String())
+		}
 	}
 	return lv
+}
+
+// uuidBytes parses the canonical text form xxxxxxxx-xxxx-xxxx-xxxx-xxxxxxxxxxxx; the empty string is 16 zero bytes.
+func uuidBytes(s string) []byte {
+	out := make([]byte, 0, 16)
+	hex := strings.ReplaceAll(s, "-", "")
+	for i := 0; i+1 < len(hex) && len(out) < 16; i += 2 {
+		var b byte
+		for _, c := range []byte(hex[i : i+2]) {
+			b <<= 4
+			switch {
+			case c >= '0' && c <= '9':
+				b |= c - '0'
+			case c >= 'a' && c <= 'f':
+				b |= c - 'a' + 10
+			case c >= 'A' && c <= 'F':
+				b |= c - 'A' + 10
+			}
+		}
+		out = append(out, b)
+	}
+	for len(out) < 16 {
+		out = append(out, 0)
+	}
+	return out
 }
 
 func floorDiv(a, b int64) int64 {
@@ -499,4 +528,9 @@ func SplitRows(col []LV) [][]LV {
 		out[len(out)-1] = append(out[len(out)-1], v)
 	}
 	return out
+}
+
+func isUUID(lt *format.LogicalType) bool {
+	_, ok := lt.Value.(*format.UUIDType)
+	return ok
 }
